@@ -582,5 +582,41 @@ func secretsKeyIsOwnName(c *eng.Ctx, rule string) {
 			}
 			c.Check(nameP != nil && eng.Origin(m.Key) == ssa.Value(nameP), rule, f, m.In.Pos(), "secrets map "+m.Kind+" with key "+eng.ValStr(m.Key), "the key is the operation's own name parameter (operations on one name never touch another)", "key is "+eng.ValStr(m.Key))
 		}
+		// ... and a kv helper that keys the map with ITS name parameter is
+		// handed the caller's own name
+		eng.Instrs(f, func(in ssa.Instruction) {
+			ci, ok := in.(ssa.CallInstruction)
+			if !ok {
+				return
+			}
+			h := eng.Callee(ci.Common())
+			if h == nil || !eng.IsHelper(f, h) || !recvIs(h, "db", "kv") {
+				return
+			}
+			var hName *ssa.Parameter
+			for _, prm := range h.Params {
+				if hName == nil && types.Identical(prm.Type(), types.Typ[types.String]) {
+					hName = prm
+				}
+			}
+			keys := false
+			for _, m := range eng.MapOps(h) {
+				if m.SrcOK && isKVRole(curProg, m.Src, "secrets") && m.Key != nil && hName != nil && eng.Origin(m.Key) == ssa.Value(hName) {
+					keys = true
+				}
+			}
+			if !keys || eng.Outer(f) == h {
+				return
+			}
+			var arg ssa.Value
+			for i, prm := range h.Params {
+				if prm == hName && i < len(ci.Common().Args) {
+					arg = ci.Common().Args[i]
+				}
+			}
+			if recvIs(eng.Outer(f), "db", "kv") {
+				c.Check(nameP != nil && arg != nil && eng.Origin(arg) == ssa.Value(nameP), rule, f, in.Pos(), eng.CallStr(ci.Common()), "the kv helper is handed the operation's own name parameter", "name argument is "+eng.ValStr(arg))
+			}
+		})
 	}
 }
